@@ -2,6 +2,8 @@ package rules
 
 import (
 	"fmt"
+	"go/token"
+	"go/types"
 	"strings"
 
 	"golang.org/x/tools/go/ssa"
@@ -347,5 +349,97 @@ func ruleAddErrorNeverDropped(c *Ctx, rule string) {
 			good := panics && path == nil
 			c.R.Add(rule, c.fk(f), "call:"+an.FuncKey(a.TreeAdd)+"/error-checked-and-panicked", c.pos(in), good, ifelse(good, "returns only on err == nil; panics with the error otherwise", "the error of Tree.Add can be dropped: a rejected registration goes unnoticed"))
 		})
+	}
+}
+
+// ruleListDuplicates is C17.R2b: a method named twice in one Handle call is a duplicate pattern+method too. The
+// validating loop over the method list of a registration must tell repeated elements apart from distinct ones, by one
+// of the idioms enumerated here: Contains(list[:i], m) / Contains(list[i+1:], m); Index(list, m) compared with the
+// loop index; a local "seen" map updated and consulted with the element; Sort followed by Compact (Compact alone only
+// folds adjacent repeats); a nested loop over the same list comparing the elements.
+func ruleListDuplicates(c *Ctx, rule string) {
+	a := c.A
+	c.R.Rule(c.R.Property+"."+rule, 1, "a method repeated inside one method list is rejected like any duplicate pattern+method")
+	g := an.NewGraph(c.P)
+	reach := g.Reach([]*ssa.Function{a.TreeAdd}, func(_ *ssa.Function, e an.Edge) bool { return e.Kind == "static" })
+	n := 0
+	for _, f := range an.SortedFuncs(reach) {
+		if !an.IsLibrary(f) || an.ErrorResultIndex(f) < 0 {
+			continue
+		}
+		for _, l := range rangeLoops(f) {
+			sl, ok := l.slice.Type().Underlying().(*types.Slice)
+			if !ok {
+				continue
+			}
+			if b, ok := sl.Elem().Underlying().(*types.Basic); !ok || b.Kind() != types.String {
+				continue
+			}
+			if _, isParam := l.slice.(*ssa.Parameter); !isParam {
+				continue
+			}
+			// a validating loop: an error return inside the body
+			hb := l.hdr.Block()
+			validating := false
+			for _, r := range an.Returns(f) {
+				if hb.Succs[0].Dominates(r.Block()) && !hb.Succs[1].Dominates(r.Block()) && an.IsErrorReturn(r) {
+					validating = true
+				}
+			}
+			if !validating {
+				continue
+			}
+			n++
+			listAP := an.AP(l.slice)
+			elemAPs := map[string]bool{}
+			for _, e := range l.elems {
+				if v, ok := e.(ssa.Value); ok {
+					elemAPs[an.AP(v)] = true
+				}
+			}
+			isElem := func(v ssa.Value) bool { return elemAPs[an.AP(v)] }
+			idiom := ""
+			sorted := map[string]bool{}
+			nestedLoops := 0
+			for _, l2 := range rangeLoops(f) {
+				if an.AP(l2.slice) == listAP || strings.HasPrefix(an.AP(l2.slice), listAP) {
+					nestedLoops++
+				}
+			}
+			an.AllInstrs(f, func(in ssa.Instruction) {
+				if call := an.CallOf(in); call != nil {
+					switch an.CalleeName(call) {
+					case "slices.Contains":
+						if s, ok := call.Args[0].(*ssa.Slice); ok && an.AP(s.X) == listAP && isElem(call.Args[1]) && (s.High != nil || s.Low != nil) {
+							idiom = "Contains(list[:i], m)"
+						}
+					case "slices.Index":
+						if an.AP(call.Args[0]) == listAP && isElem(call.Args[1]) {
+							idiom = "Index(list, m) against the loop index"
+						}
+					case "slices.Sort", "sort.Strings":
+						sorted[an.AP(call.Args[0])] = true
+					case "slices.Compact":
+						if sorted[an.AP(call.Args[0])] {
+							idiom = "Sort + Compact"
+						}
+					}
+				}
+				if mu, ok := in.(*ssa.MapUpdate); ok && isElem(mu.Key) {
+					if _, isMake := mu.Map.(*ssa.MakeMap); isMake {
+						idiom = "seen-map"
+					}
+				}
+				if bo, ok := in.(*ssa.BinOp); ok && (bo.Op == token.EQL || bo.Op == token.NEQ) && nestedLoops >= 2 {
+					if strings.HasPrefix(an.AP(bo.X), listAP+"[]") && strings.HasPrefix(an.AP(bo.Y), listAP+"[]") {
+						idiom = "nested comparison"
+					}
+				}
+			})
+			c.R.Add(rule, c.fk(f), "range("+listAP+")/repeated-element-rejected", c.pos(l.elems[0]), idiom != "", ifelse(idiom != "", "repeated elements are detected ("+idiom+")", "the validating loop over "+listAP+" never compares an element with the other elements of the list (Contains(list[:i], m), a seen-map, Sort+Compact, …): a method named twice in one call is registered twice and counted twice"))
+		}
+	}
+	if n == 0 {
+		c.R.Add(rule, c.fk(a.TreeAdd), "validating-loop", c.P.Pos(a.TreeAdd.Pos()), false, "no loop below Tree.Add validates the method list element by element")
 	}
 }
